@@ -7,7 +7,7 @@
 (* together with the requests derived from it (RouterUniverse!Requests).                 *)
 EXTENDS RouterUniverse, FiniteSetsExt, Json, CSV
 
-CONSTANTS Kinds,       \* family universes: "plain" (shapes over {a, b, V} up to MaxLen), "mixed" (MixedShapes)
+CONSTANTS Kinds,       \* family universes: "plain" (shapes over {a, b, V} up to MaxLen), "mixed" (MixedShapes), "enc" (EncShapes)
           MaxLen,      \* longest template (segments)
           MaxT,        \* templates per document
           ServerSet,   \* server shapes to cross with
@@ -23,19 +23,20 @@ NoFam == [x \in {} |-> "G"]
 
 Init == tm = NoFam /\ sk = "" /\ kind \in Kinds
 
-ShapeSet == IF kind = "mixed" THEN MixedShapes ELSE ShapesUpTo(MaxLen)
+ShapeSet == IF kind = "mixed" THEN MixedShapes ELSE IF kind = "enc" THEN EncShapes ELSE ShapesUpTo(MaxLen)
+Small == kind \in {"mixed", "enc"}     \* the two small universes share the Mixed* bounds
 
 (* GET/POST are interchangeable: the lowest-ranked template never has POST only *)
 MethOK(f) == LET lo == CHOOSE s \in DOMAIN f : \A s2 \in DOMAIN f : ShapeRank(s) <= ShapeRank(s2)
              IN f[lo] # "P"
 
 AddTemplate == /\ sk = "" /\ Cardinality(DOMAIN tm) < MaxT
-               /\ \E sh \in ShapeSet \ DOMAIN tm, mk \in (IF kind = "mixed" THEN MixedMethKeys ELSE MethKeys) :
+               /\ \E sh \in ShapeSet \ DOMAIN tm, mk \in (IF Small THEN MixedMethKeys ELSE MethKeys) :
                      tm' = [s \in DOMAIN tm \cup {sh} |-> IF s = sh THEN mk ELSE tm[s]]
                /\ UNCHANGED <<sk, kind>>
 
 ChooseServer == /\ sk = "" /\ DOMAIN tm # {} /\ MethOK(tm)
-                /\ \E k \in (IF kind = "mixed" THEN MixedServerSet ELSE ServerSet) : (k = "pslast" => Cardinality(DOMAIN tm) > 1) /\ sk' = k
+                /\ \E k \in (IF Small THEN MixedServerSet ELSE ServerSet) : (k = "pslast" => Cardinality(DOMAIN tm) > 1) /\ sk' = k
                 /\ UNCHANGED <<tm, kind>>
 
 Next == AddTemplate \/ ChooseServer
@@ -45,7 +46,7 @@ Complete == sk # ""
 TheDoc == Doc(tm, sk)
 
 InCore == /\ Cardinality(DOMAIN tm) <= CoreT
-          /\ IF kind = "mixed" THEN sk \in MixedCoreServers
+          /\ IF Small THEN sk \in MixedCoreServers
              ELSE sk \in CoreServers /\ \A s \in DOMAIN tm : Len(s) <= CoreLen
 MethCode(mk) == CASE mk = "G" -> 1 [] mk = "P" -> 2 [] mk = "GP" -> 3
 Mix(n) == (n * 7919) % 1013
